@@ -23,7 +23,7 @@ open TraitsVerif TraitsVerif.Py.Value TraitsVerif.Model.Val TraitsVerif.Model.Va
 /-- The property at full strength: whatever the trait's validator accepts lies
 in the declared domain and is the documented conversion of the assigned value.
 FALSE of the pinned tree for TraitCoerceType(float / complex) (finding F42), and
-for a Base* class whose Python validate is not clean (BaseCallable-like F40). -/
+for a Base* class of a trait whose Python validate is not clean. -/
 def C01_sound_full : Prop :=
   ∀ (E : Env), EnvOK E → ∀ (tt : TraitType) (v w : Val),
     validate E tt v = .ok w → inDomain E tt w = true ∧ Conv E tt v w
@@ -64,6 +64,7 @@ theorem E0_ok : EnvOK E0 where
     · cases h; assumption
     · cases h
   adaptProvides := by intro v c r h; simp [E0] at h
+  adaptNotNone := by intro v c r h; simp [E0] at h
   fnRange := by intro f v w _; rfl
   asarrayTyped := by intro v t d s h; simp [E0] at h
 
